@@ -28,3 +28,12 @@ Proof. exact items_partition. Qed.
 Check c16_items_partition :
   forallb (fun a => existsb (String.eqb a) (map fst proved_items ++ not_yet_proved)) builder_attrs = true.
 Print Assumptions c16_items_partition.
+
+(* the functions and closures that Natives.v models by hand are, token for token, the ones the models were written for *)
+From TI Require NativeSources.
+Theorem c16_hand_models_match_source :
+  gen_native_fns = NativeSources.modelled_fn_sources /\ gen_native_actions = NativeSources.modelled_action_sources.
+Proof. exact NativeSources.hand_models_match_source_lemma. Qed.
+Check c16_hand_models_match_source :
+  gen_native_fns = NativeSources.modelled_fn_sources /\ gen_native_actions = NativeSources.modelled_action_sources.
+Print Assumptions c16_hand_models_match_source.
